@@ -32,7 +32,7 @@ class Atom(RefBase[T], Generic[T]):
 
     def _compare_and_set(self, old: T, new: T) -> bool:
         with self._lock:
-            if self._state != old:
+            if self._state is not old and self._state != old:
                 return False
             self._state = new
             return True
